@@ -21,3 +21,4 @@ pub mod conn;
 pub mod c06;
 pub mod pkt;
 pub mod c01;
+pub mod c04;
